@@ -1,9 +1,15 @@
+import SygmaModel.Drv.C04
+import SygmaModel.Drv.C05
 import SygmaModel.Drv.C14
+import SygmaModel.Drv.C19
 namespace Sygma.Drv
 
 def dispatch (prop op : String) (args : List String) (impl : String) : Option Verdict :=
   match prop with
+  | "C04" => C04.handle op args impl
+  | "C05" => C05.handle op args impl
   | "C14" => C14.handle op args impl
+  | "C19" => C19.handle op args impl
   | _ => none
 
 end Sygma.Drv
